@@ -598,6 +598,10 @@ pub fn main(args: Args) {
     run.assume("miette labels of the returned ParserError are the diagnostic's spans; bound checked is offset+len <= len(input)+1");
     run.assume("a worker death by allocation failure under RLIMIT_AS or a CPU-time overrun is a suspect, decided only by 3 solitary reproductions with a 10x CPU budget");
 
+    let mut args = args;
+    if let Some(j) = args.get("jobs").and_then(|x| x.parse::<usize>().ok()) {
+        args.jobs = j.max(1);
+    }
     let plan = plan(&args);
     let corpus = Arc::new(vcommon::corpus::all_veryl());
     let exe = std::env::current_exe().expect("current_exe");
